@@ -10,6 +10,7 @@ from ..const import CallVal, EnumVal, module_const
 from ..core import AnalysisError, calls_in, call_name, const_str, dotted, unparse, walk_no_nested
 from ..isa import load_isa
 from ..match import const_int as const_int_
+from ..match import packed_bytes, want_le_bytes
 from ..match import (Field, last_assignments, eq_const_test, field_of, if_chain, inline, kwarg, pack_call, returns_of,
                      single_assignments)
 from ..report import VERIF, Ctx
@@ -214,26 +215,13 @@ def r3_operand_packing(ctx: Ctx) -> None:
             ctx.fail(construct, f"no arm packs the operand for width {width!r}: falls to the default `{unparse(tail_default)}`")
             continue
         expr = inline(arms_found[width], env)
-        pc = pack_call(expr)
-        if pc is None:
-            raise AnalysisError(f"emit_value[{width}]: not a struct.pack call: {unparse(expr)[:80]}")
-        fmt, args = pc
-        if not ctx.check(fmt.size == slot + 1, construct + ":size", f"format {fmt.text!r} packs {fmt.size} bytes, width {width!r} needs {slot + 1}"):
+        got = packed_bytes(expr)
+        want = want_le_bytes(src_expected, slot + 1)
+        if not ctx.check(len(got) == slot + 1, construct + ":size", f"packs {len(got)} byte(s), width {width!r} needs {slot + 1}"):
             continue
-        ctx.check(fmt.little, construct + ":endianness", f"format {fmt.text!r} must be little-endian")
-        if len(args) != len(fmt.fields):
-            ctx.fail(construct + ":arity", f"{len(args)} values for {len(fmt.fields)} fields")
-            continue
-        off = 0
-        for (code, nbytes), a in zip(fmt.fields, args):
-            f = field_of(a)
-            want = Field(src_expected, 8 * off, (1 << (8 * nbytes)) - 1)
-            c2 = f"{construct}:field@{off}"
-            if f is None:
-                raise AnalysisError(f"{c2}: operand component not in shift/mask normal form: {unparse(a)}")
-            ctx.check(code in "BHIL" and f == want, c2,
-                      f"packs {f} as {code!r}; the operand truncated to its width needs {want} unsigned")
-            off += nbytes
+        for j, (g, w) in enumerate(zip(got, want)):
+            ok = (g.source, g.bit) == (w.source, w.bit) and not g.signed and not g.checked
+            ctx.check(ok, f"{construct}:byte{j}", f"emits {g}; the operand truncated to its width, little-endian, needs {w} (masked, so wider values truncate instead of raising)")
     ctx.floor("packing_arms", 3)
     # Opcode.emit = opcode byte + operand bytes, both keyed by the same width
     em = ctx.repo.func(CPU, "Opcode.emit")
@@ -245,16 +233,13 @@ def r3_operand_packing(ctx: Ctx) -> None:
     ok = False
     detail = unparse(expr)
     if isinstance(expr, ast.BinOp) and isinstance(expr.op, ast.Add):
-        left = pack_call(expr.left)
-        right = expr.right
-        if left is not None and isinstance(right, ast.Call):
-            fmt, args = left
-            wexpr = f"guess_value_size({em.params()[1]}, {em.params()[3]})"
-            ok = (fmt.size == 1 and fmt.fields[0][0] == "B" and len(args) == 1
-                  and unparse(args[0]) == f"self.get_opcode_byte({wexpr})"
-                  and unparse(right) == f"self.emit_value({em.params()[1]}, {wexpr})")
-        elif isinstance(expr.left, ast.Call) and call_name(expr.left) == "self.emit_value":
-            ok = False
+        wexpr = f"guess_value_size({em.params()[1]}, {em.params()[3]})"
+        try:
+            left = packed_bytes(expr.left)
+        except AnalysisError:
+            left = []
+        ok = (len(left) == 1 and left[0].source == f"self.get_opcode_byte({wexpr})" and left[0].bit == 0 and not left[0].signed
+              and unparse(expr.right) == f"self.emit_value({em.params()[1]}, {wexpr})")
     else:
         raise AnalysisError(f"Opcode.emit: return not `opcode byte + operand bytes`: {detail[:100]}")
     ctx.check(ok, "Opcode.emit:concatenation", f"must return pack('B', opcode byte for the chosen width) + operand bytes for the same width; found {detail[:140]}")
